@@ -16,16 +16,16 @@ import (
 )
 
 type SolverSpec struct {
-	Name string
-	Bin  string
-	Args func(timeoutMs int) []string
+	Name  string
+	Bin   string
+	Args  func(timeoutMs int) []string
 	Logic bool
 }
 
 var solvers = map[string]*SolverSpec{
 	"z3-new": {Name: "z3-new 5.1.0", Bin: "z3-new", Args: func(t int) []string { return []string{"-smt2", fmt.Sprintf("-t:%d", t)} }},
 	"z3":     {Name: "z3 4.8.12", Bin: "z3", Args: func(t int) []string { return []string{"-smt2", fmt.Sprintf("-t:%d", t)} }},
-	"cvc5":   {Name: "cvc5 1.0.3", Bin: "cvc5", Args: func(t int) []string {
+	"cvc5": {Name: "cvc5 1.0.3", Bin: "cvc5", Args: func(t int) []string {
 		return []string{"--lang", "smt2", "--incremental", fmt.Sprintf("--tlimit-per=%d", t), "--strings-exp", "--fp-exp"}
 	}, Logic: true},
 }
@@ -37,7 +37,9 @@ type SolveStats struct {
 	Processes int64
 }
 
-func newStats() *SolveStats { return &SolveStats{BySolver: map[string]int{}, MillisBy: map[string]int64{}} }
+func newStats() *SolveStats {
+	return &SolveStats{BySolver: map[string]int{}, MillisBy: map[string]int64{}}
+}
 
 func declsText(cs ...*Ctx) string {
 	var sb strings.Builder
@@ -228,14 +230,14 @@ func solveOne(ctx context.Context, sv *SolverSpec, prelude string, o *Oblig, tim
 }
 
 type Discharger struct {
-	Prelude   string
-	Dir       string
-	TimeoutMs int
-	Primary   []string // solver order
-	Stats     *SolveStats
-	Workers   int
+	Prelude      string
+	Dir          string
+	TimeoutMs    int
+	Primary      []string // solver order
+	Stats        *SolveStats
+	Workers      int
 	SecondGround string // if set, every ground-family instance is re-checked on this solver (independent Float64 implementation)
-	KeepFailed string // directory where failed obligations are written
+	KeepFailed   string // directory where failed obligations are written
 	// failure budget: once this many obligations ended without a definite answer (timeout / unknown / no answer), or the
 	// wall budget is used up while at least one obligation has failed, the remaining solver jobs are not started: the
 	// check fails anyway, and a tree on which hundreds of queries time out would otherwise keep it busy for hours.
@@ -525,7 +527,11 @@ func (d *Discharger) discharge(groups [][]*Oblig) {
 			if o.Result == "disagree" || d.aborted() {
 				return
 			}
-			d.race(ctx, o)
+			t := d.TimeoutMs
+			if o.Result != "sat" {
+				t *= 2 // no definite answer the first time (possibly a loaded machine): the other jobs are finished now
+			}
+			d.raceT(ctx, o, t)
 		}(o)
 	}
 	wg.Wait()
@@ -563,7 +569,9 @@ func templateDefs(obs []*Oblig) string {
 }
 
 // race runs one obligation on all solvers of the portfolio concurrently; the first definite answer wins.
-func (d *Discharger) race(ctx context.Context, o *Oblig) {
+func (d *Discharger) race(ctx context.Context, o *Oblig) { d.raceT(ctx, o, d.TimeoutMs) }
+
+func (d *Discharger) raceT(ctx context.Context, o *Oblig, timeoutMs int) {
 	type ans struct {
 		solver string
 		r      string
@@ -574,7 +582,7 @@ func (d *Discharger) race(ctx context.Context, o *Oblig) {
 	ch := make(chan ans, len(d.Primary))
 	for _, sn := range d.Primary {
 		go func(sn string) {
-			r, text := solveOne(cctx, solvers[sn], d.Prelude, o, d.TimeoutMs, d.Dir, d.Stats)
+			r, text := solveOne(cctx, solvers[sn], d.Prelude, o, timeoutMs, d.Dir, d.Stats)
 			ch <- ans{sn, r, text}
 		}(sn)
 	}
